@@ -22,12 +22,74 @@ Definition R (cf : config) (progs : list (list op)) (s : sysW) : Prop :=
   reachable glob loc (tstep cf) (init cf progs) s.
 
 Ltac step_cases Hs :=
-  unfold tstep in Hs; cbn [at_ prog slots] in Hs;
+  unfold tstep0 in Hs; cbn [at_ prog slots] in Hs;
   repeat match type of Hs with
          | context [match ?x with _ => _ end] => destruct x eqn:?; cbn [at_ prog slots] in Hs
          | context [if ?x then _ else _] => destruct x eqn:?; cbn [at_ prog slots] in Hs
          end;
   try discriminate; inversion Hs; subst; clear Hs.
+
+(* ---------- from the steps of the instrumented kind (tstep0) to the steps of both kinds (tstep) ---------- *)
+(* A step of the plain kind is a tstep0 step followed by tstep0 steps of the same thread (settle), so whatever
+   tstep0 preserves, tstep preserves; enabledness is that of tstep0. *)
+Lemma upd_same {A} (l : list A) i x : nth_error l i = Some x -> upd l i x = l.
+Proof. revert i; induction l as [|a r IH]; intros [|i] H; cbn in *; try discriminate; [inversion H; reflexivity|f_equal; auto]. Qed.
+Lemma upd_upd {A} (l : list A) i x y : upd (upd l i x) i y = upd l i y.
+Proof. revert i; induction l as [|a r IH]; intros [|i]; cbn; try reflexivity. f_equal. apply IH. Qed.
+
+Lemma tstep_none cf t c g l : tstep cf t c g l = None <-> tstep0 cf t c g l = None.
+Proof.
+  unfold tstep. destruct (tstep0 cf t c g l) as [[[g1 l1] es]|]; [|tauto].
+  destruct (plain cf); split; discriminate.
+Qed.
+Lemma tstep_some cf t c g l r : tstep0 cf t c g l = Some r -> exists r', tstep cf t c g l = Some r'.
+Proof. intros H. unfold tstep. rewrite H. destruct r as [[g1 l1] es]. destruct (plain cf); eexists; reflexivity. Qed.
+Lemma settle_stop cf t fuel g l es : silent_pc (at_ l) = false -> settle cf t fuel g l es = (g, l, es).
+Proof. intros H. destruct fuel; cbn [settle]; [reflexivity|]. rewrite H. reflexivity. Qed.
+(* a step whose result is not in the middle of invisible accesses is a tstep0 step *)
+Lemma tstep_eq0 cf t c g l g' l' es : tstep0 cf t c g l = Some (g', l', es) -> silent_pc (at_ l') = false ->
+  tstep cf t c g l = Some (g', l', es).
+Proof. intros H Hs. unfold tstep. rewrite H. destruct (plain cf); [rewrite settle_stop by exact Hs|]; reflexivity. Qed.
+Lemma tstep_inv cf t c g l r : tstep cf t c g l = Some r ->
+  exists g1 l1 es1, tstep0 cf t c g l = Some (g1, l1, es1) /\
+    (plain cf = false \/ silent_pc (at_ l1) = false -> r = (g1, l1, es1)) /\
+    (plain cf = true -> r = settle cf t SETTLE_FUEL g1 l1 es1).
+Proof.
+  unfold tstep. destruct (tstep0 cf t c g l) as [[[g1 l1] es1]|]; [|discriminate]. intros H.
+  exists g1, l1, es1. split; [reflexivity|]. destruct (plain cf) eqn:Ep; inversion H; subst; split.
+  - intros [E|E]; [discriminate|]. apply settle_stop. exact E.
+  - reflexivity.
+  - reflexivity.
+  - discriminate.
+Qed.
+
+Section Lift.
+  Variable cf : config.
+  Variable P : glob -> list loc -> Prop.
+  Hypothesis P_step0 : forall g ls t c l g' l' es,
+    P g ls -> nth_error ls t = Some l -> tstep0 cf t c g l = Some (g', l', es) -> P g' (upd ls t l').
+  Lemma settle_inv fuel : forall g ls t l es g2 l2 es2,
+    P g ls -> nth_error ls t = Some l -> settle cf t fuel g l es = (g2, l2, es2) -> P g2 (upd ls t l2).
+  Proof.
+    induction fuel as [|f IH]; intros g ls t l es g2 l2 es2 HP Hl Hs; cbn [settle] in Hs.
+    - inversion Hs; subst. rewrite (upd_same _ _ _ Hl). exact HP.
+    - destruct (silent_pc (at_ l)); [|inversion Hs; subst; rewrite (upd_same _ _ _ Hl); exact HP].
+      destruct (tstep0 cf t 0 g l) as [[[g' l'] es']|] eqn:E; [|inversion Hs; subst; rewrite (upd_same _ _ _ Hl); exact HP].
+      pose proof (P_step0 _ _ _ _ _ _ _ _ HP Hl E) as HP'.
+      assert (nth_error (upd ls t l') t = Some l') as Hl' by (eapply nth_upd_eq; eauto).
+      pose proof (IH _ _ _ _ _ _ _ _ HP' Hl' Hs) as H2. rewrite upd_upd in H2. exact H2.
+  Qed.
+  Lemma lift_step : forall g ls t c l g' l' es,
+    P g ls -> nth_error ls t = Some l -> tstep cf t c g l = Some (g', l', es) -> P g' (upd ls t l').
+  Proof.
+    intros g ls t c l g' l' es HP Hl Hs. unfold tstep in Hs.
+    destruct (tstep0 cf t c g l) as [[[g1 l1] es1]|] eqn:E; [|discriminate].
+    pose proof (P_step0 _ _ _ _ _ _ _ _ HP Hl E) as HP1.
+    destruct (plain cf); [|inversion Hs; subst; exact HP1].
+    inversion Hs as [Hs']. assert (nth_error (upd ls t l1) t = Some l1) as Hl1 by (eapply nth_upd_eq; eauto).
+    pose proof (settle_inv _ _ _ _ _ _ _ _ _ HP1 Hl1 Hs') as H2. rewrite upd_upd in H2. exact H2.
+  Qed.
+End Lift.
 
 (* ---------- counting over the slots ---------- *)
 Definition b2n (b : bool) : nat := if b then 1%nat else 0%nat.
@@ -139,7 +201,7 @@ Proof.
 Qed.
 
 Lemma locok_step cf t c g l g' l' es :
-  locok cf l -> tstep cf t c g l = Some (g', l', es) -> locok cf l'.
+  locok cf l -> tstep0 cf t c g l = Some (g', l', es) -> locok cf l'.
 Proof.
   intros [Hlen Hpc] Hs. destruct l as [pr p sl]. cbn [at_ slots] in *.
   step_cases Hs; unfold locok; cbn [at_ slots]; rewrite ?upd_length, ?do_move_length, ?after_rel_length.
@@ -334,7 +396,7 @@ Ltac cnt_facts cf sl0 Hlen :=
 Ltac hx_simpl := unfold hx, hs, b2n in *; cbn [hown hsh hnn hid oh disown nulled] in *.
 
 Lemma Inv1_step cf : forall g ls t c l g' l' es,
-  Inv1 cf g ls -> nth_error ls t = Some l -> tstep cf t c g l = Some (g', l', es) -> Inv1 cf g' (upd ls t l').
+  Inv1 cf g ls -> nth_error ls t = Some l -> tstep0 cf t c g l = Some (g', l', es) -> Inv1 cf g' (upd ls t l').
 Proof.
   intros g ls t c l g' l' es HI Hl Hs.
   pose proof (locok_step _ _ _ _ _ _ _ _ (I_ok _ _ _ HI _ _ Hl) Hs) as Hok'.
@@ -659,7 +721,7 @@ Proof.
 Qed.
 
 Lemma Inv2_step cf : forall g ls t c l g' l' es,
-  Inv1 cf g ls -> Inv2 cf g ls -> nth_error ls t = Some l -> tstep cf t c g l = Some (g', l', es) ->
+  Inv1 cf g ls -> Inv2 cf g ls -> nth_error ls t = Some l -> tstep0 cf t c g l = Some (g', l', es) ->
   Inv2 cf g' (upd ls t l').
 Proof.
   intros g ls t c l g' l' es H1 H2 Hl Hs.
@@ -773,7 +835,7 @@ Qed.
 
 Definition Inv (cf : config) (g : glob) (ls : list loc) : Prop := Inv1 cf g ls /\ Inv2 cf g ls.
 Lemma Inv_step cf : forall g ls t c l g' l' es,
-  Inv cf g ls -> nth_error ls t = Some l -> tstep cf t c g l = Some (g', l', es) -> Inv cf g' (upd ls t l').
+  Inv cf g ls -> nth_error ls t = Some l -> tstep0 cf t c g l = Some (g', l', es) -> Inv cf g' (upd ls t l').
 Proof. intros g ls t c l g' l' es [H1 H2] Hl Hs. split; [eapply Inv1_step|eapply Inv2_step]; eauto. Qed.
 Lemma R_inv cf progs s : R cf progs s -> Inv cf (gl s) (thr s).
 Proof.
@@ -881,9 +943,9 @@ Proof.
   right. split; [reflexivity|]. destruct (Nat.eqb_spec c 2); [discriminate|assumption].
 Qed.
 
-Lemma idle_enabled cf t c g pr sl o : exists r, tstep cf t c g (Loc (o :: pr) Idle sl) = Some r.
+Lemma idle_enabled cf t c g pr sl o : exists r, tstep0 cf t c g (Loc (o :: pr) Idle sl) = Some r.
 Proof.
-  unfold tstep. cbn [at_ prog slots].
+  unfold tstep0. cbn [at_ prog slots].
   repeat match goal with
          | |- exists r, (match ?x with _ => _ end) = Some r => destruct x
          | |- exists r, (if ?x then _ else _) = Some r => destruct x
@@ -893,34 +955,34 @@ Qed.
 
 (* the only ways to be disabled: finished, or waiting for the mutex in a blocking acquisition *)
 Lemma disabled_shape cf t g l : locok cf l ->
-  tstep cf t 0 g l = None -> tstep cf t 2 g l = None ->
+  tstep0 cf t 0 g l = None -> tstep0 cf t 2 g l = None ->
   fin l = true \/ exists sm, blocked_on cf l sm /\ obtainable sm g = false.
 Proof.
   intros [Hlen Hpc] H0 H2. destruct l as [pr p sl]. cbn [at_ slots] in *.
   destruct p.
   - destruct pr as [|o pr]; [left; reflexivity|]. destruct (idle_enabled cf t 0 g pr sl o) as [r Hr]. congruence.
-  - right. unfold tstep in H0, H2. cbn [at_ slots prog] in H0, H2.
+  - right. unfold tstep0 in H0, H2. cbn [at_ slots prog] in H0, H2.
     destruct (acquire am (sh && shcap cf) t 0 g) as [[[g1 okk] e]|] eqn:A0.
     { destruct (slot sl h) as [old|]; [destruct (hown old)|]; discriminate. }
     destruct (acquire am (sh && shcap cf) t 2 g) as [[[g1 okk] e]|] eqn:A2.
     { destruct (slot sl h) as [old|]; [destruct (hown old)|]; discriminate. }
     destruct (acquire_none _ _ _ _ _ A2) as [Ho [->|[_ Hc]]]; [|congruence].
     exists (sh && shcap cf). split; [left; exists h, sh; split; reflexivity|exact Ho].
-  - exfalso. destruct Hpc as [old [Ho _]]. unfold tstep in H0. cbn [at_ slots prog] in H0. rewrite Ho in H0.
+  - exfalso. destruct Hpc as [old [Ho _]]. unfold tstep0 in H0. cbn [at_ slots prog] in H0. rewrite Ho in H0.
     destruct (release _ _ _ _). discriminate.
-  - exfalso. destruct Hpc as [[old [Ho _]] _]. unfold tstep in H0. cbn [at_ slots prog] in H0. rewrite Ho in H0.
+  - exfalso. destruct Hpc as [[old [Ho _]] _]. unfold tstep0 in H0. cbn [at_ slots prog] in H0. rewrite Ho in H0.
     destruct (release _ _ _ _). discriminate.
-  - right. unfold tstep in H0. cbn [at_ slots prog] in H0.
+  - right. unfold tstep0 in H0. cbn [at_ slots prog] in H0.
     destruct (wop_code cf o) as [[gsh code]|] eqn:Ew; [|congruence].
     destruct (acquire ABlock (gsh && shcap cf) t 0 g) as [[[g1 okk] e]|] eqn:A0; [discriminate|].
     destruct (acquire_none _ _ _ _ _ A0) as [Ho _].
     exists (gsh && shcap cf). split; [right; exists o, gsh, code; repeat split; assumption|exact Ho].
-  - exfalso. destruct Hpc as [Hne _]. unfold tstep in H0. cbn [at_ slots prog] in H0.
+  - exfalso. destruct Hpc as [Hne _]. unfold tstep0 in H0. cbn [at_ slots prog] in H0.
     destruct code as [|i rest]; [congruence|].
     destruct (m_thrown _); [destruct fr; discriminate|].
     destruct (negb (m_done _)); [discriminate|].
     destruct (match m_rest _ with Some c' => c' | None => rest end); destruct fr; discriminate.
-  - exfalso. unfold tstep in H0. cbn [at_ slots prog] in H0.
+  - exfalso. unfold tstep0 in H0. cbn [at_ slots prog] in H0.
     destruct (wop_code cf o) as [[gsh code]|] eqn:Ew; [|congruence].
     destruct (release _ _ _ _). discriminate.
 Qed.
@@ -945,8 +1007,8 @@ Proof.
   assert (Hshape : forall u lu, nth_error (thr s) u = Some lu ->
             fin lu = true \/ exists sm, blocked_on cf lu sm /\ obtainable sm (gl s) = false).
   { intros u lu Hu. apply (disabled_shape cf u (gl s) lu (I_ok _ _ _ H1 _ _ Hu)).
-    - destruct (tstep cf u 0 (gl s) lu) as [r|] eqn:E; [|reflexivity]. exfalso. apply (HQ u 0%nat); [lia|]. exists lu, r. auto.
-    - destruct (tstep cf u 2 (gl s) lu) as [r|] eqn:E; [|reflexivity]. exfalso. apply (HQ u 2%nat); [lia|]. exists lu, r. auto. }
+    - destruct (tstep0 cf u 0 (gl s) lu) as [r|] eqn:E; [|reflexivity]. exfalso. apply (HQ u 0%nat); [lia|]. exists lu, r. auto.
+    - destruct (tstep0 cf u 2 (gl s) lu) as [r|] eqn:E; [|reflexivity]. exfalso. apply (HQ u 2%nat); [lia|]. exists lu, r. auto. }
   destruct (Hshape t l Hl) as [Hf|[sm [Hb Ho]]]; [left; exact Hf|right].
   split; [exists sm; exact Hb|].
   (* somebody holds the mutex *)
@@ -980,8 +1042,8 @@ Lemma holder_in_op_enabled_l cf progs s a la c : R cf progs s -> nth_error (thr 
   (1 <= pcx cf (at_ la) + pcs cf (at_ la))%nat -> enabledW cf s a c.
 Proof.
   intros HR Ha Hp. destruct (R_inv _ _ _ HR) as [H1 _]. destruct (I_ok _ _ _ H1 _ _ Ha) as [Hlen Hpc].
-  assert (exists r, tstep cf a c (gl s) la = Some r) as [r Hr]; [|exists la, r; auto].
-  destruct la as [pr p sl]. cbn [at_ slots] in *. unfold tstep. cbn [at_ slots prog].
+  assert (exists r, tstep0 cf a c (gl s) la = Some r) as [r Hr]; [|exists la, r; auto].
+  destruct la as [pr p sl]. cbn [at_ slots] in *. unfold tstep0. cbn [at_ slots prog].
   destruct p; cbn in Hp; try lia.
   - destruct Hpc as [old [Ho _]]. rewrite Ho. destruct (release _ _ _ _). eexists; reflexivity.
   - destruct Hpc as [Hne _]. destruct code as [|i rest]; [congruence|].
@@ -1070,7 +1132,7 @@ Proof.
 Qed.
 
 Lemma Inv3_step cf : forall g ls t c l g' l' es,
-  Inv1 cf g ls -> Inv3 g ls -> nth_error ls t = Some l -> tstep cf t c g l = Some (g', l', es) -> Inv3 g' (upd ls t l').
+  Inv1 cf g ls -> Inv3 g ls -> nth_error ls t = Some l -> tstep0 cf t c g l = Some (g', l', es) -> Inv3 g' (upd ls t l').
 Proof.
   intros g ls t c l g' l' es H1 HI Hl Hs.
   destruct (I_ok _ _ _ H1 _ _ Hl) as [Hlen Hpc].
@@ -1124,7 +1186,7 @@ Lemma R_inv3 cf progs s : R cf progs s -> Inv3 (gl s) (thr s).
 Proof.
   intros H.
   assert (Inv1 cf (gl s) (thr s) /\ Inv3 (gl s) (thr s)) as [_ H3]; [|exact H3].
-  refine (reachable_inv glob loc (tstep cf) (fun g ls => Inv1 cf g ls /\ Inv3 g ls) _ _ _ _ H).
+  refine (reachable_inv glob loc (tstep0 cf) (fun g ls => Inv1 cf g ls /\ Inv3 g ls) _ _ _ _ H).
   - intros g ls t c l g' l' es [H1 H3] Hl Hs. split; [eapply Inv1_step|eapply Inv3_step]; eauto.
   - split; [apply Inv1_init|apply Inv3_init].
 Qed.
@@ -1160,22 +1222,22 @@ Proof.
 Qed.
 (* the handles of a thread are changed only by that thread's own steps *)
 Lemma other_steps_keep_handles (cf : config) (s : sysW) t u c : u <> t ->
-  nth_error (thr (step glob loc (tstep cf) s (u, c))) t = nth_error (thr s) t.
+  nth_error (thr (step glob loc (tstep0 cf) s (u, c))) t = nth_error (thr s) t.
 Proof.
   intros Hne. unfold step, sys_step. destruct (nth_error (thr s) u) as [l|]; [|reflexivity].
-  destruct (tstep cf u c (gl s) l) as [[[g' l'] es]|]; [|reflexivity]. cbn. apply nth_upd_ne. exact Hne.
+  destruct (tstep0 cf u c (gl s) l) as [[[g' l'] es]|]; [|reflexivity]. cbn. apply nth_upd_ne. exact Hne.
 Qed.
 
 (* try / timed / blocking acquisition with locking enabled: the handle is non-null exactly when its lock
    object owns, and it owns exactly when the mutex was obtainable at that step *)
 Lemma try_null_iff_l cf t c g l g' l' es h am sh :
-  at_ l = HAcq h am sh -> tstep cf t c g l = Some (g', l', es) ->
+  at_ l = HAcq h am sh -> tstep0 cf t c g l = Some (g', l', es) ->
   exists new, hsh new = sh /\ hnn new = hown new /\ hown new = obtainable (sh && shcap cf) g /\
     ((at_ l' = HRelOld h new /\ slots l' = slots l) \/
      (at_ l' = Idle /\ slots l' = upd (slots l) h (Some new) /\ In (ret_ev (b2z (hnn new))) es)).
 Proof.
   intros Hp Hs. destruct l as [pr p sl]. cbn [at_ slots] in *. subst p.
-  unfold tstep in Hs. cbn [at_ slots prog] in Hs.
+  unfold tstep0 in Hs. cbn [at_ slots prog] in Hs.
   destruct (acquire am (sh && shcap cf) t c g) as [[[g1 okk] e]|] eqn:A; [|discriminate].
   assert (okk = obtainable (sh && shcap cf) g) as Eo.
   { destruct okk; [destruct (acquire_true _ _ _ _ _ _ _ A)|destruct (acquire_false _ _ _ _ _ _ _ A)]; congruence. }
@@ -1189,28 +1251,28 @@ Qed.
 
 (* a try / timed acquisition can always complete: it is enabled under the time-out choice *)
 Lemma timed_never_stuck_l cf t g pr sl h am sh : am <> ABlock ->
-  exists r, tstep cf t 2 g (Loc pr (HAcq h am sh) sl) = Some r.
+  exists r, tstep0 cf t 2 g (Loc pr (HAcq h am sh) sl) = Some r.
 Proof.
-  intros Ham. unfold tstep. cbn [at_ slots prog].
+  intros Ham. unfold tstep0. cbn [at_ slots prog].
   assert (exists x, acquire am (sh && shcap cf) t 2 g = Some x) as [[[g1 okk] e] ->].
   { unfold acquire. destruct am; [congruence| |]; rewrite ?orb_true_r; eexists; reflexivity. }
   destruct (slot sl h) as [old|]; [destruct (hown old)|]; eexists; reflexivity.
 Qed.
 Lemma try_always_enabled_l cf t c g pr sl h sh :
-  exists r, tstep cf t c g (Loc pr (HAcq h ATry sh) sl) = Some r.
+  exists r, tstep0 cf t c g (Loc pr (HAcq h ATry sh) sl) = Some r.
 Proof.
-  unfold tstep. cbn [at_ slots prog]. unfold acquire.
+  unfold tstep0. cbn [at_ slots prog]. unfold acquire.
   destruct (slot sl h) as [old|]; [destruct (hown old)|]; eexists; reflexivity.
 Qed.
 
 (* after unlock() the handle is null and owns nothing *)
 Lemma unlock_nulls_l cf t c g l g' l' es h :
   (at_ l = Idle /\ exists pr, prog l = Unlock h :: pr) \/ at_ l = HRel (RUnlock h) ->
-  tstep cf t c g l = Some (g', l', es) -> In (ret_ev 0) es ->
+  tstep0 cf t c g l = Some (g', l', es) -> In (ret_ev 0) es ->
   exists x, slot (slots l') h = Some x /\ hnn x = false /\ hown x = false.
 Proof.
   intros Hp Hs Hret. destruct l as [pr p sl]. cbn [at_ slots prog] in *.
-  destruct Hp as [[-> [pr' ->]]| ->]; unfold tstep in Hs; cbn [at_ slots prog rel_slot] in Hs.
+  destruct Hp as [[-> [pr' ->]]| ->]; unfold tstep0 in Hs; cbn [at_ slots prog rel_slot] in Hs.
   - destruct (slot sl h) as [x|] eqn:Ex.
     + destruct (hown x); inversion Hs; subst; cbn in Hret.
       * destruct Hret as [Hr|[]]. discriminate.
@@ -1238,7 +1300,7 @@ Proof.
 Qed.
 
 Lemma noown_step cf t c g l g' l' es : locking cf = false -> locok cf l -> noown (slots l) ->
-  tstep cf t c g l = Some (g', l', es) -> noown (slots l').
+  tstep0 cf t c g l = Some (g', l', es) -> noown (slots l').
 Proof.
   intros Hlk [Hlen Hpc] Hn Hs. destruct l as [pr p sl]. cbn [at_ slots] in *.
   step_cases Hs; cbn [slots]; try exact Hn.
@@ -1271,7 +1333,7 @@ Lemma disabled_never_locks_l cf progs s t l : R cf progs s -> locking cf = false
 Proof.
   intros HR Hlk Hl.
   assert (HI : Inv1 cf (gl s) (thr s) /\ forall u lu, nth_error (thr s) u = Some lu -> noown (slots lu)).
-  { refine (reachable_inv glob loc (tstep cf)
+  { refine (reachable_inv glob loc (tstep0 cf)
               (fun g ls => Inv1 cf g ls /\ forall u lu, nth_error ls u = Some lu -> noown (slots lu)) _ _ _ _ HR).
     - intros g ls t0 c l0 g' l' es [H1 Hn] Hl0 Hs. split; [eapply Inv1_step; eauto|].
       intros u lu Hu. destruct (nth_upd _ _ _ _ _ Hu) as [[-> [-> _]]|[_ Hu']]; [|eauto].
@@ -1288,10 +1350,10 @@ Qed.
 (* ... and every acquisition is enabled in every state, returns a non-null handle at once and emits no mutex operation *)
 Lemma disabled_acquire_l cf t c g pr sl o h am sh : locking cf = false -> noown sl ->
   acq_of cf o = Some (h, am, sh) -> (h < NSLOTS)%nat ->
-  tstep cf t c g (Loc (o :: pr) Idle sl) =
+  tstep0 cf t c g (Loc (o :: pr) Idle sl) =
   Some (g, Loc pr Idle (upd sl h (Some (H sh true false 0))), [inv_ev o; ret_ev 1]).
 Proof.
-  intros Hlk Hn Ha Hh. unfold tstep. cbn [at_ prog slots].
+  intros Hlk Hn Ha Hh. unfold tstep0. cbn [at_ prog slots].
   assert (in_range h = true) as Hr by (apply in_range_lt; exact Hh).
   assert (Hold : forall old, slot sl h = Some old -> hown old = false) by (intros old Ho; eapply Hn; eauto).
   destruct o; cbn in Ha; try discriminate; rewrite Ha, Hr, Hlk; cbn [negb];
@@ -1484,7 +1546,7 @@ Definition wfl (cf : config) (l : loc) : Prop :=
   | _ => True
   end.
 
-Lemma wfl_step cf t c g l g' l' es : locok cf l -> wfl cf l -> tstep cf t c g l = Some (g', l', es) -> wfl cf l'.
+Lemma wfl_step cf t c g l g' l' es : locok cf l -> wfl cf l -> tstep0 cf t c g l = Some (g', l', es) -> wfl cf l'.
 Proof.
   intros [Hlen Hpc] [[a [Ha Hw]] Hside] Hs. destruct l as [pr p sl]. unfold apost in Ha. cbn [at_ slots prog] in *.
   destruct p.
@@ -1540,7 +1602,7 @@ Lemma R_wfl cf progs s : wf_progs cf progs = true -> R cf progs s ->
 Proof.
   intros Hwf HR.
   assert (HI : Inv1 cf (gl s) (thr s) /\ forall u lu, nth_error (thr s) u = Some lu -> wfl cf lu); [|apply HI].
-  refine (reachable_inv glob loc (tstep cf)
+  refine (reachable_inv glob loc (tstep0 cf)
             (fun g ls => Inv1 cf g ls /\ forall u lu, nth_error ls u = Some lu -> wfl cf lu) _ _ _ _ HR).
   - intros g ls t0 c l0 g' l' es [H1 Hn] Hl0 Hs. split; [eapply Inv1_step; eauto|].
     intros u lu Hu. destruct (nth_upd _ _ _ _ _ Hu) as [[-> [-> _]]|[_ Hu']]; [|eauto].
@@ -1573,7 +1635,7 @@ Qed.
 (* C02: readers and writers never overlap; readers can share            *)
 (* ================================================================== *)
 (* what one step can do to the exclusive owner: nothing, release it, or take it - only when the mutex is free *)
-Lemma owner_step cf t c g l g' l' es : tstep cf t c g l = Some (g', l', es) ->
+Lemma owner_step cf t c g l g' l' es : tstep0 cf t c g l = Some (g', l', es) ->
   owner g' = owner g \/ owner g' = None \/ (owner g' = Some t /\ free_x g = true).
 Proof.
   intros Hs. destruct l as [pr p sl].
@@ -1588,7 +1650,7 @@ Proof.
   all: try (left; apply exec_mi_mutex).
 Qed.
 
-Lemma R_step cf progs s tc : R cf progs s -> R cf progs (step glob loc (tstep cf) s tc).
+Lemma R_step cf progs s tc : R cf progs s -> R cf progs (step glob loc (tstep0 cf) s tc).
 Proof. apply reachable_step. Qed.
 
 (* t holds the mutex in shared mode: a live shared handle, or inside read / ordered load, on a shared-capable mutex *)
@@ -1622,7 +1684,7 @@ Qed.
 (* ... and no modification can start: whatever step is taken, nobody holds the mutex exclusively afterwards
    and no modification window is open (the steps that would take the exclusive lock are disabled) *)
 Lemma no_mod_starts_l cf progs s t u c : R cf progs s -> holds_shared cf s t ->
-  let s' := step glob loc (tstep cf) s (u, c) in
+  let s' := step glob loc (tstep0 cf) s (u, c) in
   (forall v, lx cf (locof (thr s') v) = 0%nat) /\
   (safe cf (gl s') -> forall v, wropen (at_ (locof (thr s') v)) = false).
 Proof.
@@ -1631,7 +1693,7 @@ Proof.
   destruct (shared_no_owner _ _ _ _ H1 Ht) as [Ho Hf].
   assert (Ho' : owner (gl s') = None).
   { unfold s', step, sys_step. destruct (nth_error (thr s) u) as [l|] eqn:El; [|exact Ho].
-    destruct (tstep cf u c (gl s) l) as [[[g' l'] es]|] eqn:Es; [|exact Ho]. cbn.
+    destruct (tstep0 cf u c (gl s) l) as [[[g' l'] es]|] eqn:Es; [|exact Ho]. cbn.
     destruct (owner_step _ _ _ _ _ _ _ _ Es) as [E|[E|[_ E]]]; congruence. }
   assert (HX : forall v, lx cf (locof (thr s') v) = 0%nat).
   { intros v. rewrite (I_x _ _ _ H1'). unfold own1. rewrite Ho'. reflexivity. }
@@ -1643,10 +1705,10 @@ Proof.
 Qed.
 (* the blocking exclusive acquisitions themselves are disabled *)
 Lemma writer_blocked_l cf progs s t u c l : R cf progs s -> holds_shared cf s t ->
-  nth_error (thr s) u = Some l -> blocked_on cf l false -> tstep cf u c (gl s) l = None.
+  nth_error (thr s) u = Some l -> blocked_on cf l false -> tstep0 cf u c (gl s) l = None.
 Proof.
   intros HR Ht Hl Hb. destruct (R_inv _ _ _ HR) as [H1 _]. destruct (shared_no_owner _ _ _ _ H1 Ht) as [_ Hf].
-  destruct l as [pr p sl]. unfold tstep, blocked_on in *. cbn [at_ slots prog] in *.
+  destruct l as [pr p sl]. unfold tstep0, blocked_on in *. cbn [at_ slots prog] in *.
   destruct Hb as [[h [sh [-> Em]]]|[o [gsh [code [-> [Ew Em]]]]]].
   - rewrite <- Em. unfold acquire, obtainable. rewrite Hf. reflexivity.
   - rewrite Ew, <- Em. unfold acquire, obtainable. rewrite Hf. reflexivity.
@@ -1655,17 +1717,17 @@ Qed.
 (* readers share: with a shared-capable mutex a shared acquisition (handle, read, ordered load) is enabled
    whenever there is no exclusive owner - whatever the sharers are, under every choice *)
 Lemma readers_share_handle_l cf t c g pr sl h am : shcap cf = true -> owner g = None ->
-  exists r, tstep cf t c g (Loc pr (HAcq h am true) sl) = Some r.
+  exists r, tstep0 cf t c g (Loc pr (HAcq h am true) sl) = Some r.
 Proof.
-  intros Hc Ho. unfold tstep. cbn [at_ slots prog]. rewrite Hc. cbn [andb].
+  intros Hc Ho. unfold tstep0. cbn [at_ slots prog]. rewrite Hc. cbn [andb].
   assert (exists x, acquire am true t c g = Some x) as [[[g1 okk] e] ->].
   { unfold acquire, obtainable, free_s. rewrite Ho. destruct am; cbn; eexists; reflexivity. }
   destruct (slot sl h) as [old|]; [destruct (hown old)|]; eexists; reflexivity.
 Qed.
 Lemma readers_share_guard_l cf t c g pr sl o code : shcap cf = true -> owner g = None ->
-  wop_code cf o = Some (true, code) -> exists r, tstep cf t c g (Loc pr (GAcq o) sl) = Some r.
+  wop_code cf o = Some (true, code) -> exists r, tstep0 cf t c g (Loc pr (GAcq o) sl) = Some r.
 Proof.
-  intros Hc Ho Ew. unfold tstep. cbn [at_ slots prog]. rewrite Ew, Hc. cbn [andb].
+  intros Hc Ho Ew. unfold tstep0. cbn [at_ slots prog]. rewrite Ew, Hc. cbn [andb].
   unfold acquire, obtainable, free_s. rewrite Ho. eexists; reflexivity.
 Qed.
 
@@ -1695,13 +1757,13 @@ Qed.
    goes to the destructor of its guard (the only lock object in scope) with the exception pending *)
 Lemma wr_throw_step cf t c g pr sl fr fid snap rest ph r ok :
   existsb (Nat.eqb (calls g)) (throws cf) = true ->
-  tstep cf t c g (Loc pr (Run fr (MCall fid snap :: rest) ph r ok) sl) =
+  tstep0 cf t c g (Loc pr (Run fr (MCall fid snap :: rest) ph r ok) sl) =
   Some (set_calls g (S (calls g)),
         Loc pr (match fr with FGuard o gid => GRel o gid 0 true | FUse _ => Idle end) sl,
         [E K_CALL 0 fid; E K_THROW 0 (Z.of_nat (calls g))] ++
         match fr with FGuard _ _ => [] | FUse _ => [catch_ev] end).
 Proof.
-  intros Ht. unfold tstep. cbn [at_ slots prog]. unfold exec_mi. rewrite Ht. cbn [m_thrown m_g m_ev].
+  intros Ht. unfold tstep0. cbn [at_ slots prog]. unfold exec_mi. rewrite Ht. cbn [m_thrown m_g m_ev].
   destruct fr; reflexivity.
 Qed.
 Lemma wr_throw_payload_untouched g n :
@@ -1731,7 +1793,7 @@ Qed.
 
 (* K_CATCH is emitted only by the destructor step of a guard with an exception pending
    (and by the - unreachable - throwing call of an access through a handle) *)
-Lemma catch_only_from cf t c g l g' l' es : tstep cf t c g l = Some (g', l', es) -> In catch_ev es ->
+Lemma catch_only_from cf t c g l g' l' es : tstep0 cf t c g l = Some (g', l', es) -> In catch_ev es ->
   (exists o gid rv, at_ l = GRel o gid rv true) \/ (exists a code ph r ok, at_ l = Run (FUse a) code ph r ok).
 Proof.
   intros Hs Hc. destruct l as [pr p sl]. destruct p; cbn [at_]; try (right; repeat eexists; fail).
@@ -1753,7 +1815,7 @@ Qed.
    the mutex (one unlock event, the guard's acquisition number goes to the release log) and leaves the
    thread at top level owning nothing but what its live handles own *)
 Lemma wr_exn_no_lock_left cf progs s t c l g' l' es :
-  R cf progs s -> nth_error (thr s) t = Some l -> tstep cf t c (gl s) l = Some (g', l', es) -> In catch_ev es ->
+  R cf progs s -> nth_error (thr s) t = Some l -> tstep0 cf t c (gl s) l = Some (g', l', es) -> In catch_ev es ->
   at_ l' = Idle /\ slots l' = slots l /\
   lx cf l' = cnt (hx cf) (slots l) /\ lsh cf l' = cnt (hs cf) (slots l) /\
   ((exists o gid rv gsh code, at_ l = GRel o gid rv true /\ wop_code cf o = Some (gsh, code) /\
@@ -1763,14 +1825,14 @@ Proof.
   intros HR Hl Hs Hc.
   destruct (catch_only_from _ _ _ _ _ _ _ _ Hs Hc) as [[o [gid [rv Hp]]]|[a [code [ph [r [ok Hp]]]]]];
     destruct l as [pr p sl]; cbn [at_ slots] in *; subst p.
-  - unfold tstep in Hs. cbn [at_ slots prog] in Hs.
+  - unfold tstep0 in Hs. cbn [at_ slots prog] in Hs.
     destruct (wop_code cf o) as [[gsh code]|] eqn:Ew; [|discriminate].
     destruct (release (gsh && shcap cf) t gid (gl s)) as [g1 e] eqn:Er. inversion Hs; subst.
     pose proof (release_ev _ _ _ _ _ _ Er) as ->. rewrite (release_eq _ _ _ _ _ _ Er).
     unfold lx, lsh. cbn [at_ slots pcx pcs]. repeat split; auto.
     left. exists o, gid, rv, gsh, code. repeat split; auto. destruct (gsh && shcap cf); reflexivity.
   - assert (at_ l' = Idle /\ slots l' = sl) as [E1 E2].
-    { unfold tstep in Hs. cbn [at_ slots prog] in Hs. destruct code as [|i rest]; [discriminate|].
+    { unfold tstep0 in Hs. cbn [at_ slots prog] in Hs. destruct code as [|i rest]; [discriminate|].
       destruct (m_thrown _); [inversion Hs; auto|].
       destruct (negb (m_done _)).
       - inversion Hs; subst. exfalso. eapply exec_mi_not_catch; eauto.
@@ -1784,15 +1846,15 @@ Qed.
    the throw plan - no_deadlock_shape, excl_invariant, ...), and a thread that keeps no handle holds the mutex
    in no mode; if its guard was exclusive the mutex has no exclusive owner *)
 Lemma wr_exn_usable cf progs s t c l g' l' es :
-  R cf progs s -> nth_error (thr s) t = Some l -> tstep cf t c (gl s) l = Some (g', l', es) -> In catch_ev es ->
-  R cf progs (step glob loc (tstep cf) s (t, c)) /\
+  R cf progs s -> nth_error (thr s) t = Some l -> tstep0 cf t c (gl s) l = Some (g', l', es) -> In catch_ev es ->
+  R cf progs (step glob loc (tstep0 cf) s (t, c)) /\
   (~ holds_in_slots cf l -> owner g' <> Some t /\ ~ In t (sharers g')) /\
   (forall o gid rv, at_ l = GRel o gid rv true -> gmode cf o = false -> owner g' = None).
 Proof.
   intros HR Hl Hs Hc. pose proof (R_step cf progs s (t, c) HR) as HR'.
   split; [exact HR'|].
   destruct (wr_exn_no_lock_left _ _ _ _ _ _ _ _ _ HR Hl Hs Hc) as [_ [_ [Ex [Es _]]]].
-  assert (Hst : step glob loc (tstep cf) s (t, c) = Sys g' (upd (thr s) t l')).
+  assert (Hst : step glob loc (tstep0 cf) s (t, c) = Sys g' (upd (thr s) t l')).
   { unfold step, sys_step. rewrite Hl, Hs. reflexivity. }
   rewrite Hst in HR'. destruct (R_inv1 _ _ _ HR') as [_ IX IS _]. cbn [gl thr] in *.
   specialize (IX t). specialize (IS t). rewrite (locof_upd _ _ _ _ _ Hl), Nat.eqb_refl in IX, IS.
@@ -1801,7 +1863,7 @@ Proof.
     + intros Ho. unfold own1 in IX. rewrite Ho, Nat.eqb_refl in IX. cbn in IX. lia.
     + intros Hin. unfold shc in IS. apply (count_occ_In Nat.eq_dec) in Hin. lia.
   - intros o gid rv Hp Hg. destruct l as [pr p sl]. cbn [at_] in Hp. subst p.
-    unfold tstep in Hs. cbn [at_ slots prog] in Hs. unfold gmode in Hg.
+    unfold tstep0 in Hs. cbn [at_ slots prog] in Hs. unfold gmode in Hg.
     destruct (wop_code cf o) as [[gsh code]|] eqn:Ew; [|discriminate]. rewrite Hg in Hs.
     unfold release in Hs. inversion Hs; subst. reflexivity.
 Qed.
@@ -1827,7 +1889,7 @@ Qed.
 Lemma wr_exn_state cf progs s t l o gid rv exn : R cf progs s -> safe cf (gl s) ->
   nth_error (thr s) t = Some l -> at_ l = GRel o gid rv exn ->
   dirty (gl s) = false /\ (forall u, wropen (at_ (locof (thr s) u)) = false) /\
-  forall c, exists g' l' e, tstep cf t c (gl s) l = Some (g', l', [e; if exn then catch_ev else ret_ev rv]) /\
+  forall c, exists g' l' e, tstep0 cf t c (gl s) l = Some (g', l', [e; if exn then catch_ev else ret_ev rv]) /\
                             val g' = val (gl s) /\ dirty g' = false /\ at_ l' = Idle.
 Proof.
   intros HR Hs Hl Hp. destruct (R_inv _ _ _ HR) as [H1 H2].
@@ -1842,7 +1904,7 @@ Proof.
     assert (u <> t) as Hne by (intros ->; rewrite (locof_at _ _ _ Hl), Hp in Hq; discriminate).
     destruct (I_cov _ _ _ H2 Hs u _ _ _ _ _ Hq) as [Hx|[_ Hn]]; [|cbn in Hn; rewrite Hro in Hn; discriminate].
     destruct (excl_locks cf _ _ u t H1 Hne ltac:(lia)). lia.
-  - intros c. destruct l as [pr p sl]. cbn [at_] in Hp. subst p. unfold tstep. cbn [at_ slots prog].
+  - intros c. destruct l as [pr p sl]. cbn [at_] in Hp. subst p. unfold tstep0. cbn [at_ slots prog].
     destruct (wop_code cf o) as [[gsh code]|] eqn:Ew; [|congruence].
     unfold release. eexists _, _, _. split; [reflexivity|]. destruct (gsh && shcap cf); cbn; auto.
 Qed.
